@@ -166,6 +166,8 @@ class ArrayHistory(Engine):
             return c
         if k == 'delete':
             return {'op': 'delete'}
+        if k == 'copycheck':
+            return {'op': 'copycheck', 'dtype': rng.choice([None, None, D.pick_dtype(rng)]), 'chunklen': rng.choice([None, 1, 3])}
         raise HarnessError(k)
 
     # ---- bounded-exhaustive part of the thorough tier: every op sequence up to
@@ -342,6 +344,7 @@ class _State:
         self.steps = 0
         self.mutations_ok = 0
         self.gens = []
+        self.cells = set()
 
     # -- helpers
     def probe(self, name):
@@ -349,7 +352,8 @@ class _State:
 
     def stats(self):
         return {'steps': self.steps, 'mutations_ok': self.mutations_ok, 'probes': self.probes,
-                'faults': self.faults, 'transitions': sorted(self.transitions)}
+                'faults': self.faults, 'transitions': sorted(self.transitions),
+                'extra': {'dtype_cells_created': sorted(self.cells)}}
 
     def close(self):
         self.h = None
@@ -414,6 +418,7 @@ class _State:
                                   accessmode=op['mode'], chunklen=op.get('chunklen'), metadata=md, **kw)
             model = np.full(tuple(op['shape']), 0 if op.get('fill') is None else op['fill'], dtype=dtype)
         self.h, self.model, self.mode = h, model, op['mode']
+        self.cells.add(D.dtstr(model.dtype))
         self.meta = M.json_normalise(md) if md else {}
         if model.shape[0] == 0:
             self.probe('created_empty')
@@ -697,6 +702,32 @@ class _State:
             self.mutations_ok += 1
         self.log(op['op'], out)
         self.after_step(op)
+
+    def do_copycheck(self, op):
+        """copy() to a second path; the copy's documentation must be current too (C08)"""
+        import shutil
+        p2 = os.path.join(self.sb, 'copy.darr')
+        shutil.rmtree(p2, ignore_errors=True)
+        dt = None if op.get('dtype') is None else np.dtype(op['dtype'])
+        if dt is not None and D.dtstr(dt) != D.dtstr(self.model.dtype):
+            dt = None       # casts are C15's subject; here only the documentation of the copy
+        exc = self.call(lambda: self.h.copy(p2, dtype=dt, chunklen=op.get('chunklen')))
+        if exc is not None:
+            raise Viol('model.copy', f'raises:{type(exc).__name__}', str(exc)[:200])
+        if self.has('readme'):
+            r = check_array_readme(p2, self.scratch, has_meta=bool(self.meta), who='array_copy')
+            if r:
+                raise Viol(*r)
+        if self.has('decoder'):
+            try:
+                a, d = decode_array_dir(p2)
+            except DecodeError as e:
+                raise Viol('decoder.copy', str(e).split(':')[0], str(e))
+            if not D.arr_equal(a, self.model)[0]:
+                raise Viol('decoder.copy', 'contents', '')
+        shutil.rmtree(p2, ignore_errors=True)
+        self.probe('copy_checked')
+        self.log('copycheck', 'ok')
 
     def do_delete(self, op):
         exc = self.call(lambda: self.darr.delete_array(self.h))
